@@ -474,6 +474,9 @@ func (c *HTTPClient) discover() error {
 			c.topology.Update(primary, secondaries...)
 			break
 		}
+		// do not ask this endpoint again: without this a node that keeps
+		// answering with a client error makes discovery spin for ever
+		e.MarkAsDead()
 	}
 
 	return nil
